@@ -138,7 +138,9 @@ TakePositional ==
        /\ ctrlKw' = ctrlKw \o named
     /\ pc' = "build"
     /\ UNCHANGED <<fixed, call, pass, entry, args, kwargs, request, out, first>>
-\* the request dict: positionals take the first names of the entry, keywords keep THEIR OWN name
+\* the request dict: positionals take the first names of the entry, keywords keep THEIR OWN name (Python binds keywords by name).
+\* Zipping  args + kwargs  with the entry positionally is the mutant kwargs_by_position: it is right only when the field
+\* keywords happen to be written in table order without a gap.
 IdxOf(name) == CHOOSE i \in 1..Len(entry) : entry[i] = name
 ByName == (IF fieldPos = <<>> THEN <<>> ELSE [i \in 1..Len(fieldPos) |-> <<entry[i], fieldPos[i]>>]) \o kwargs
 ByPosition == LET all == fieldPos \o Vals(kwargs) IN
